@@ -646,7 +646,7 @@ func runLibrary(total int) {
 	vlib.Parallel(len(segs), 5, func(i int) {
 		cur := segs[i].from
 		attempt := 0
-		for cur < segs[i].to {
+		for cur < segs[i].to && !abortRun.Load() {
 			attempt++
 			marker := filepath.Join(tmp, fmt.Sprintf("lib%d-%d.m", i, attempt))
 			stats := filepath.Join(tmp, fmt.Sprintf("lib%d-%d.s", i, attempt))
@@ -695,7 +695,13 @@ func runLibrary(total int) {
 			switch {
 			case res.TimedOut:
 				run.Inconclusive("library child watchdog fired at case %d (%s)", at, w.Entry)
-			case res.ExitCode == exitHang && hangConfirmed("lib-hang/"+w.Entry):
+			case res.ExitCode == exitHang && func() bool {
+				if n := hangSuspects.Add(1); n > 40 && run.Violations() > 0 && !abortRun.Load() {
+					abortRun.Store(true)
+					run.Inconclusive("more than 40 cases ran into the watchdog and violations are already established: the remaining work is not run")
+				}
+				return hangConfirmed("lib-hang/" + w.Entry)
+			}():
 				run.Count("lib.hang_suspects_at_a_site_already_confirmed_in_this_run", 1)
 			case res.ExitCode == exitHang:
 				var same atomic.Int32
